@@ -61,6 +61,7 @@ structure EvRec where
   emitterFresh : Bool
   mappedOk : Bool
   stops : Nat
+  authAtEmit : List Nat := []
 deriving Repr, Inhabited
 
 structure State where
@@ -123,6 +124,10 @@ structure State where
   firstFrame : List Nat := []                           -- clients that ran a frame in their session
   sessionBroken : List Nat := []                        -- clients whose session ended at some point
   srvStops : Nat := 0
+  onWire : List (Nat × Nat) := []                       -- (client, id) of client events put on the wire
+  expectLocal : List (Nat × Nat) := []                  -- (client, id): emitted and framed while disconnected
+  sframeOps : List Nat := []                            -- op indices of server frames (newest first)
+  lastConnect : List (Nat × Nat) := []                  -- client ↦ op index of its latest connect
   elapsed : Nat := 0
   /-- the server was (re)started and has not run a frame yet: `ServerTick` counts as changed -/
   freshStart : Bool := false
@@ -623,7 +628,7 @@ def modelStep (st : State) (inp : List String) (obs : List String) : State × Li
   | ["deliver", c, "c2s", "1", _] =>
     -- the ProtocolHash trigger of the default authorization: equal registrations on both sides
     match c.toNat?, obs.head?.map toks with
-    | some c, some ("ok" :: _) => ({ st with srv := m.authorize c }, [])
+    | some c, some ("ok" :: _) => if st.authCheck then ({ st with srv := m.authorize c }, []) else (st, [])
     | _, _ => (st, [])
   | ["junk", c, "0", hex] =>
     if !ok then (st, []) else
@@ -845,7 +850,8 @@ def evtStep (st : State) (inp : List String) (obs : List String) : State × List
   -- bookkeeping of sessions
   let st := match inp with
     | ["connect", c] => if ok then (match c.toNat? with
-        | some c => { st with sessionStart := (c, st.ops) :: st.sessionStart.filter (·.1 ≠ c), firstFrame := st.firstFrame.filter (· ≠ c) }
+        | some c => { st with sessionStart := (c, st.ops) :: st.sessionStart.filter (·.1 ≠ c), firstFrame := st.firstFrame.filter (· ≠ c),
+                              lastConnect := (c, st.ops) :: st.lastConnect.filter (·.1 ≠ c) }
         | none => st) else st
     | ["disconnect", c] => if ok then (match c.toNat? with
         | some c => { st with sessionStart := st.sessionStart.filter (·.1 ≠ c), sessionBroken := c :: st.sessionBroken }
@@ -859,7 +865,8 @@ def evtStep (st : State) (inp : List String) (obs : List String) : State × List
     | some id =>
       let ev : EvRec := { id := id, kind := kind, s2c := true, mode := mode, target := rest.head?.bind String.toNat?,
                           emitter := "s", opIdx := st.ops, srvRunning := st.running, emitterConnected := true,
-                          emitterFresh := false, mappedOk := true, stops := st.srvStops }
+                          emitterFresh := false, mappedOk := true, stops := st.srvStops,
+                          authAtEmit := (st.srv.clients.filter fun (_, cl) => cl.authorized).map (·.1) }
       ({ st with evs := ev :: st.evs }, [])
     | none => (st, [])
   | "cev" :: who :: kind :: id :: rest =>
@@ -943,12 +950,18 @@ def evtStep (st : State) (inp : List String) (obs : List String) : State × List
                     let c := (who.drop 1).toString.toNat?.getD 0
                     if isC2s then
                       -- a client app observing its own client event: only as singleplayer
-                      (if ev.emitter = toString c && !ev.emitterConnected && frm = some "S" then [] else
-                        [Verdict.oracle "C13" s!"client {c} observes client event {id} locally (emitter {ev.emitter}, connected {ev.emitterConnected}, from {frm})"])
+                      (if ev.emitter ≠ toString c || frm ≠ some "S" then
+                        [Verdict.oracle "C13" s!"client {c} observes client event {id} locally (emitter {ev.emitter}, from {frm})"]
+                       else if st.onWire.contains (c, id) then
+                        [Verdict.oracle "C13" s!"[F13] client {c}: event {id} was sent to the remote server and is handled a second time locally after the session ended"]
+                       else [])
                     else
                       (if clientAllowed ev c then [] else [Verdict.oracle "C05" s!"event {id} with mode {ev.mode} is delivered to client {c}"]) ++
                       (match st.sessionStart.lookup c with
-                       | some t0 => if t0 < ev.opIdx then [] else [Verdict.oracle "C05" s!"client {c} receives event {id} that was sent before it connected"]
+                       | some t0 =>
+                         -- an event is "sent" in the server frame that follows its emission
+                         let sentAt := ((st.sframeOps.filter (· > ev.opIdx)).getLast?).getD (st.ops + 1)
+                         if t0 < sentAt then [] else [Verdict.oracle "C05" s!"client {c} receives event {id} that was sent before it connected"]
                        | none => [Verdict.oracle "C05" s!"client {c} without a session receives event {id}"]) ++
                       (if kind = "ind" then [] else
                         match st.stamps.lookup (c, id), upd with
@@ -960,14 +973,39 @@ def evtStep (st : State) (inp : List String) (obs : List String) : State × List
                           [Verdict.oracle "C04" s!"event {id}: entity reference resolves to {tgt} on client {c}, sent for entity {ev.target}"])
                        else [])
               -- order per receiver and kind (ids grow with emission order)
-              let vOrd := match (st.delivs.filter fun d => d.1 = who && d.2.1 = kind).head? with
+              let okey := kind ++ (frm.getD "")
+              let vOrd := match (st.delivs.filter fun d => d.1 = who && d.2.1 = okey).head? with
                 | some (_, _, lastId) => if kind = "unrel" || lastId < id then [] else
                     [Verdict.oracle "C05" s!"{who} receives {kind} event {id} after event {lastId}: out of sending order"]
                 | none => []
-              ({ st with delivs := (who, kind, id) :: st.delivs }, acc.2 ++ vDup ++ vEv ++ vOrd)) acc
+              ({ st with delivs := (who, kind, id) :: (who, okey, id) :: st.delivs }, acc.2 ++ vDup ++ vEv ++ vOrd)) acc
         | _ => acc) (st, [])
+    let st := if inp.head? = some "sframe" then { st with sframeOps := st.ops :: st.sframeOps } else st
     let st := match inp with
-      | ["cframe", c] => (match c.toNat? with | some c => { st with firstFrame := c :: st.firstFrame } | none => st)
+      | ["cframe", c] => (match c.toNat? with
+        | some c =>
+          let base := if st.authCheck then 2 else 1
+          let wire := obs.filterMap fun o =>
+            let t := toks o
+            if t.head? ≠ some "csent" then none else
+            match kvNat t "ch", kvHex t "hex" with
+            | some ch, some bs =>
+              if ch < base then none else
+              if ch = base || ch = base + 1 then (match decodeU32 bs with | .ok (i, _) => some (c, i) | _ => none)
+              else (match decodeU64 bs with
+                | .ok (n, r) => (match decodeN decodeEntity n r with
+                  | .ok (_, r2) => (match decodeU32 r2 with | .ok (i, _) => some (c, i) | _ => none)
+                  | _ => none)
+                | _ => none)
+            | _, _ => none
+          let hasSession := (st.sessionStart.lookup c).isSome
+          let due := if hasSession then [] else
+            -- events pending when the client connects are discarded by `reset`, so only those
+            -- emitted since the latest connect are due
+            (st.evs.filter fun ev => !ev.s2c && ev.emitter = toString c && ev.kind = "ord" && !ev.emitterConnected &&
+              ev.opIdx > (st.lastConnect.lookup c).getD 0).map fun ev => (c, ev.id)
+          { st with firstFrame := c :: st.firstFrame, onWire := wire ++ st.onWire, expectLocal := due ++ st.expectLocal }
+        | none => st)
       | _ => st
     -- exactly once, after everything was delivered
     let vFinal : List Verdict :=
@@ -976,11 +1014,11 @@ def evtStep (st : State) (inp : List String) (obs : List String) : State × List
         if ev.stops ≠ st.srvStops then [] else
         if ev.s2c then
           let vLocal :=
-            if Evt.localDelivery (modeOf ev.mode) && !st.delivs.contains ("s", ev.kind, ev.id) then
+            if Evt.localDelivery (modeOf ev.mode) && !(ev.kind = "trig" && st.dedicated) && !st.delivs.contains ("s", ev.kind, ev.id) then
               [Verdict.oracle "C13" s!"server event {ev.id} ({ev.kind}, mode {ev.mode}) was never observed locally although the local server is among its recipients"] else []
           let vRemote := if !(ev.kind = "ord" || ev.kind = "ind") || !ev.srvRunning then [] else
             (st.sessionStart.filter fun (c, t0) => t0 < ev.opIdx && !st.sessionBroken.contains c && clientAllowed ev c &&
-                (ev.kind = "ind" || ((st.srv.clients.lookup c).map (·.authorized)).getD false)).filterMap fun (c, _) =>
+                (ev.kind = "ind" || ev.authAtEmit.contains c)).filterMap fun (c, _) =>
               if st.delivs.contains (s!"c{c}", ev.kind, ev.id) then none
               else some (Verdict.oracle "C05" s!"event {ev.id} ({ev.kind}, mode {ev.mode}) never reached client {c} although the session was up and everything was delivered")
           vLocal ++ vRemote
@@ -996,7 +1034,7 @@ def evtStep (st : State) (inp : List String) (obs : List String) : State × List
                 (if ev.emitterFresh || st.sessionBroken.contains c || !ev.srvRunning || st.delivs.contains ("s", "cord", ev.id) then []
                  else [Verdict.oracle "C05" s!"client event {ev.id} from client {c} never reached the server although the session was up"])
               else
-                (if st.delivs.contains (s!"c{c}", "cord", ev.id) then []
+                (if !st.expectLocal.contains (c, ev.id) || st.delivs.contains (s!"c{c}", "cord", ev.id) then []
                  else [Verdict.oracle "C13" s!"event {ev.id} sent by the disconnected client app {c} (singleplayer) was never observed locally"])
             | none => []
     (st, vSent ++ vLog ++ vFinal)
@@ -1212,6 +1250,7 @@ def init (hdr : List String) : State :=
   { whitelist := kv hdr "policy" = some "white", track := kv hdr "track" = some "1",
     sync := kv hdr "sync" = some "1", nclients := (kvNat hdr "clients").getD 1, authCheck := kv hdr "auth" = some "check", authCustom := kv hdr "auth" = some "custom",
     events := kv hdr "events" = some "1", dedicated := kv hdr "dedicated" = some "1",
-    srv := { white := kv hdr "policy" = some "white", rates := modelRates } }
+    srv := { white := kv hdr "policy" = some "white", rates := modelRates,
+             resetBeforeCondition := kv hdr "dedicated" ≠ some "1" } }
 
 end Driver.Sys
